@@ -3,6 +3,7 @@ package main
 import (
 	"fmt"
 	"reflect"
+	"time"
 )
 
 // C02: replies with a correct 8-byte header and every payload class, through the recording driver
@@ -203,5 +204,70 @@ func runC02(o Opts) error {
 			_ = reflect.TypeOf
 		}
 	}
+	if o.Replay == "" {
+		dstC02(s, r)
+	}
 	return s.Close()
+}
+
+// replies carrying date-times on the days a daylight-saving change happens, decoded with the process zone set to a zone
+// that observes it (times of day that exist on that day): the result is still exactly the transmitted fields
+func dstC02(s *Sink, r *Rand) {
+	defer func() { time.Local = time.UTC }()
+	bcd := func(v int) byte { return byte(v/10<<4 | v%10) }
+	n := 0
+	for _, z := range []string{"Europe/London", "America/Santiago", "Australia/Lord_Howe", "America/St_Johns"} {
+		loc, err := time.LoadLocation(z)
+		if err != nil {
+			continue
+		}
+		// days of 2021..2022 on which the offset at noon differs from the offset at noon the day before
+		days := []time.Time{}
+		prev := 0
+		for d := time.Date(2021, 1, 1, 12, 0, 0, 0, time.UTC); d.Year() < 2023; d = d.AddDate(0, 0, 1) {
+			_, off := d.In(loc).Zone()
+			if d.YearDay() != 1 || d.Year() != 2021 {
+				if off != prev {
+					days = append(days, d, d.AddDate(0, 0, -1))
+				}
+			}
+			prev = off
+		}
+		time.Local = loc
+		for _, d := range days {
+			for _, tod := range [][3]int{{4, 0, 0}, {12, 34, 56}, {23, 59, 59}} {
+				id := genID(r)
+				for _, name := range []string{"GetStatus", "GetTime", "GetEvent"} {
+					w := map[string]int{"GetStatus": 8, "GetTime": 4, "GetEvent": 0}[name]
+					var oc OpCase
+					found := false
+					for k := 0; k < nOps; k++ {
+						if c := genOp(r, k, id, false); c.Name == name {
+							oc, found, w = c, true, k
+							break
+						}
+					}
+					_ = w
+					if !found {
+						continue
+					}
+					reply := genReply(r, oc.Resp, id, 0, nil)
+					stamp := []byte{0x20, bcd(d.Year() % 100), bcd(int(d.Month())), bcd(d.Day()), bcd(tod[0]), bcd(tod[1]), bcd(tod[2])}
+					switch name {
+					case "GetStatus":
+						copy(reply[20:27], stamp)
+						copy(reply[37:40], stamp[4:7])
+						copy(reply[51:54], stamp[1:4])
+					case "GetTime":
+						copy(reply[8:15], stamp)
+					case "GetEvent":
+						copy(reply[20:27], stamp)
+					}
+					apiCase(s, Cfg{}, oc, Script{Kind: "datagrams", Datagrams: [][]byte{reply}}, "dst-day/"+z+"/"+name, nil, true)
+					n++
+				}
+			}
+		}
+	}
+	s.Extra["dst_day_replies"] = n
 }
